@@ -1,4 +1,5 @@
 """C13 — epoch_df / compute_features_2d(axis=None) partition the flattened analysis.  Model/Epoch.v."""
+import copy
 import math
 import numpy as np
 from harness import coqio, gen, pipeline
@@ -15,11 +16,16 @@ COQ_STREAMS = {
     'axis_none': (_HDR, 'bad_axis_none', ('epoch_in', 'result (list (list out_row))'), 40),
 }
 RULE = ('(a) epoch_df on synthetic tables of both centrings whose closing indices fall on, one before and one after '
-        'multiples of the epoch length, sig_len not necessarily a multiple of it, including empty epochs; (b) '
-        'compute_features_2d(axis=None) on generated signals reshaped to (n_rows, row_len) with a single option set and with a '
-        'per-epoch list of different thresholds, both burst methods, row lengths shorter than a cycle (empty epochs) and '
-        'longer; the flattened analysis is compute_features of the concatenated signal. non-trivial = >= 2 non-empty epochs')
-ASSUMPTIONS = ['closing indices strictly increasing (C01)', 'per-epoch lists keep one burst method and one centre for all epochs']
+        'multiples of the epoch length, sig_len not necessarily a multiple of it, including empty epochs; row labels default, '
+        'shifted, reversed or shuffled; (b) '
+        'compute_features_2d(axis=None) on generated signals reshaped to (n_rows, row_len), n_rows >= 1, with the option argument '
+        'absent / None / {} / a single dict / a per-epoch list (one-element list for a one-row array) of different thresholds, '
+        'both burst methods; every key optional (centre, method, thresholds incl. the amplitude ones, find_extrema_kwargs with '
+        'boundary / filter length, a "return_samples" entry which is documented as ignored); row lengths shorter than a cycle '
+        '(empty epochs) and longer; the flattened analysis is compute_features of the concatenated signal with the same options. '
+        'non-trivial = >= 2 non-empty epochs')
+ASSUMPTIONS = ['closing indices strictly increasing (C01)', 'per-epoch lists keep one burst method and one centre for all epochs',
+               'the function-level return_samples flag is left at its default (the statement is about the sample indices)']
 CYC = pipeline.CYC_KEYS
 
 
@@ -49,41 +55,95 @@ def cases(rng, tier):
             la = closes[i - 1] if i > 0 else max(0, cl - rng.randint(3, 9))
             ce = (la + cl) // 2 if cl - la >= 2 else la
             rows.append([ce, la, cl, (la + ce) // 2, (ce + cl) // 2, max(0, la - 1)])
+        # row labels of the input table: default RangeIndex, shifted, reversed or shuffled (positions, not labels, count)
+        r = rng.random()
+        nr = len(rows)
+        if r < 0.55:
+            index = None
+        elif r < 0.7:
+            off = rng.choice([1, 7, 100])
+            index = list(range(off, off + nr))
+        elif r < 0.85:
+            index = list(range(nr - 1, -1, -1))
+        else:
+            index = list(range(nr))
+            rng.shuffle(index)
         out.append({'kind': 'synthetic', 'center': rng.choice(['peak', 'trough']), 'rows': rows, 'sig_len': sig_len, 'L': L,
-                    'labels': [rng.random() < 0.5 for _ in rows]})
-    m = 70 if tier == 'quick' else 700
+                    'labels': [rng.random() < 0.5 for _ in rows], 'index': index})
+    m = 90 if tier == 'quick' else 900
     for _ in range(m):
-        s = gen.signal(rng, kind=rng.choice(['sine', 'bursty', 'sparse', 'sum', 'asym', 'noise', 'chirp']), max_len=640)
+        r = rng.random()
+        shape = 'list' if r < 0.45 else ('dict' if r < 0.8 else ('none' if r < 0.9 else 'empty'))
+        method = 'cycles' if shape in ('none', 'empty') else rng.choice(['cycles', 'cycles', 'amp'] if shape == 'dict' else ['cycles', 'amp'])
+        # amplitude labels depend on where bursts start and stop: prefer signals with many burst edges for that method
+        kinds = ['bursty', 'sparse', 'bursty', 'sparse', 'sum', 'noise', 'sine'] if method == 'amp' else \
+            ['sine', 'bursty', 'sparse', 'sum', 'asym', 'noise', 'chirp']
+        s = gen.signal(rng, kind=rng.choice(kinds), max_len=640)
         sig = s['sig']
         per = s['period']
         row_len = rng.choice([per // 2, per, per + 3, 2 * per, 3 * per + 1, 5 * per])
+        if rng.random() < 0.12:
+            row_len = len(sig)                      # a (1, T) array: one epoch holding every cycle
         n_rows = len(sig) // row_len
-        if n_rows < 2:
+        if n_rows < 1:
             continue
-        method = rng.choice(['cycles', 'cycles', 'amp'])
+        # the centre is optional: absent means the default, 'peak'
         center = rng.choice(['peak', 'trough'])
+        give_center = rng.random() < 0.65
+        if not give_center or shape in ('none', 'empty'):
+            center = 'peak'
 
-        def opts():
+        def thresholds(is_first):
+            # every key is optional: an epoch that omits one must get the DEFAULT, not a neighbour's value; later
+            # epochs omit keys more often, and the first set more often carries non-default values, so that it matters
+            p_key = 0.6 if is_first else 0.5
             if method == 'cycles':
-                # every key is optional: an epoch that omits one must get the DEFAULT, not a neighbour's value
-                thr = {k: rng.choice([0.0, 0.2, 0.4, 0.6, 0.9]) for k in CYC if rng.random() < 0.6}
-                if rng.random() < 0.6:
+                thr = {k: rng.choice([0.0, 0.2, 0.4, 0.6, 0.9]) for k in CYC if rng.random() < p_key}
+                if rng.random() < p_key:
                     thr['min_n_cycles'] = rng.choice([1, 2, 3])
-                d = {'center_extrema': center}
-                if thr or rng.random() < 0.7:
-                    d['threshold_kwargs'] = thr
-                return d
-            return {'burst_method': 'amp', 'center_extrema': center,
-                    'threshold_kwargs': {'burst_fraction_threshold': rng.choice([0.1, 0.5, 1]), 'min_n_cycles': rng.choice([1, 2, 3])},
-                    'burst_kwargs': {'amp_threshes': (0.5, 1.2)}}
-        per_epoch = rng.random() < 0.5
-        first = opts()
-        lst = None
-        if per_epoch:
-            lst = [first] + [dict(opts(), **({'burst_kwargs': first['burst_kwargs']} if method == 'amp' else {})) for _ in range(n_rows - 1)]
-        out.append({'kind': 'axis_none/%s/%s' % (method, 'list' if per_epoch else 'dict'), 'sig': gen.hexlist(sig[:n_rows * row_len]),
+                return thr if (thr or rng.random() < 0.7) else None
+            thr = {}
+            if rng.random() < (0.8 if is_first else 0.5):
+                thr['burst_fraction_threshold'] = rng.choice([0.1, 0.3, 0.5, 1] if is_first else [0.1, 0.5, 1])
+            if rng.random() < (0.8 if is_first else 0.5):
+                thr['min_n_cycles'] = rng.choice([1, 1, 2, 3] if is_first else [1, 2, 3])
+            return thr if (thr or rng.random() < 0.7) else None
+
+        def opts(is_first):
+            d = {}
+            if give_center and (is_first or rng.random() < 0.7):
+                d['center_extrema'] = center
+            if method == 'amp':
+                d['burst_method'] = 'amp'
+            elif rng.random() < 0.3:
+                d['burst_method'] = 'cycles'
+            thr = thresholds(is_first)
+            if thr is not None:
+                d['threshold_kwargs'] = thr
+            if rng.random() < 0.2:
+                d['return_samples'] = rng.random() < 0.3          # documented: ignored
+            return d
+        first, lst = None, None
+        if shape in ('dict', 'list'):
+            first = opts(True)
+            if method == 'amp':
+                first['burst_kwargs'] = {'amp_threshes': (0.5, 1.2)}
+            if rng.random() < 0.4:
+                fek = {}
+                r2 = rng.random()
+                if r2 < 0.4:
+                    fek['filter_kwargs'] = {'n_cycles': rng.choice([2, 3, 4])}
+                elif r2 < 0.65:
+                    fek['filter_kwargs'] = {'n_seconds': round(rng.choice([0.9, 2.5, 3, 4]) * per / s['fs'] / 0.7, 6)}
+                if rng.random() < 0.7 or not fek:
+                    fek['boundary'] = rng.choice([0, 1, 5, len(sig) // 10, per])
+                first['find_extrema_kwargs'] = fek
+            if shape == 'list':
+                lst = [first] + [opts(False) for _ in range(n_rows - 1)]
+        out.append({'kind': 'axis_none/%s/%s' % (method, shape), 'sig': gen.hexlist(sig[:n_rows * row_len]),
                     'fs': s['fs'], 'f_range': list(s['f_range']), 'n_rows': n_rows, 'row_len': row_len, 'method': method,
-                    'center': center, 'first': first, 'list': lst, 'layout': rng.choice(['C', 'C', 'F', 'view'])})
+                    'center': center, 'shape': shape, 'first': first, 'list': lst, 'omit_arg': shape == 'none' and rng.random() < 0.5,
+                    'layout': rng.choice(['C', 'C', 'F', 'view'])})
     return out
 
 
@@ -98,7 +158,10 @@ def _features_df(c):
     d['amp_fraction'] = np.linspace(0.1, 1, n) if n else np.array([])
     d['is_burst'] = np.array(c['labels'], dtype=bool)
     d['rowid'] = np.arange(n, dtype=int)
-    return pd.DataFrame(d)
+    df = pd.DataFrame(d)
+    if c.get('index') is not None:
+        df.index = pd.Index(list(c['index']))
+    return df
 
 
 def _rows_of(df, center, ids=None):
@@ -112,7 +175,7 @@ def _rows_of(df, center, ids=None):
 
 def _full(df):
     cols = [c for c in df.columns if not c.startswith('sample_') and c not in ('is_burst', 'rowid')]
-    return [[float(df[c].iloc[i]) for c in cols] for i in range(len(df))], cols
+    return [{c: float(df[c].iloc[i]) for c in cols} for i in range(len(df))]
 
 
 def run_impl(c):
@@ -142,13 +205,20 @@ def run_impl(c):
         sigs = np.asfortranarray(sigs)
     elif c.get('layout') == 'view':
         sigs = np.ascontiguousarray(sigs.T).T
-    first = {k: (dict(v) if isinstance(v, dict) else v) for k, v in c['first'].items()}
+    shape = _shape(c)
+    first = copy.deepcopy(c['first']) if c.get('first') else {}
+    # "the analysis of the concatenated signal": compute_features with the caller's (first / only) option set; a
+    # 'return_samples' entry of the option set is documented as ignored by the group function
+    ref_kw = {k: v for k, v in first.items() if k != 'return_samples'}
+    if isinstance(ref_kw.get('burst_kwargs'), dict) and 'amp_threshes' in ref_kw['burst_kwargs']:
+        ref_kw['burst_kwargs']['amp_threshes'] = tuple(ref_kw['burst_kwargs']['amp_threshes'])
     try:
-        flat = compute_features(sig, c['fs'], tuple(c['f_range']), return_samples=True,
-                                **{k: (dict(v) if isinstance(v, dict) else v) for k, v in first.items()})
+        flat = compute_features(sig, c['fs'], tuple(c['f_range']), return_samples=True, **ref_kw)
     except Exception as e:
         return {'skip': 'flattened analysis raised %s' % exc_kind(e)}
     sc = pipeline.sample_cols(c['center'])
+    if any(col not in flat.columns for col in sc):
+        return {'skip': 'flattened analysis lacks the sample columns of centre %s' % c['center']}
     feat_cols = ['amp_fraction', 'amp_consistency', 'period_consistency', 'monotonicity']
     flat_rows = []
     for i in range(len(flat)):
@@ -156,30 +226,60 @@ def run_impl(c):
         bf = float(flat['burst_fraction'].iloc[i]) if 'burst_fraction' in flat.columns else float('nan')
         flat_rows.append({'s': [int(flat[col].iloc[i]) for col in sc], 'f4': [x if not math.isnan(x) else None for x in f4],
                           'bf': None if math.isnan(bf) else bf, 'lab': bool(flat['is_burst'].iloc[i])})
-    kw = [{k: (dict(v) if isinstance(v, dict) else v) for k, v in o.items()} for o in c['list']] if c['list'] else first
+    if shape == 'list':
+        kw = [copy.deepcopy(o) for o in c['list']]
+        for o in kw:
+            if isinstance(o.get('burst_kwargs'), dict) and 'amp_threshes' in o['burst_kwargs']:
+                o['burst_kwargs']['amp_threshes'] = tuple(o['burst_kwargs']['amp_threshes'])
+    elif shape == 'none':
+        kw = None
+    else:
+        kw = copy.deepcopy(first)
+        if isinstance(kw.get('burst_kwargs'), dict) and 'amp_threshes' in kw['burst_kwargs']:
+            kw['burst_kwargs']['amp_threshes'] = tuple(kw['burst_kwargs']['amp_threshes'])
     out = {'flat': flat_rows}
     try:
-        eps = compute_features_2d(sigs, c['fs'], tuple(c['f_range']), compute_features_kwargs=kw, axis=None)
+        if shape == 'none' and c.get('omit_arg'):
+            eps = compute_features_2d(sigs, c['fs'], tuple(c['f_range']), axis=None)
+        else:
+            eps = compute_features_2d(sigs, c['fs'], tuple(c['f_range']), compute_features_kwargs=kw, axis=None)
     except Exception as e:
         out['err'] = exc_kind(e)
         out['msg'] = str(e)[:200]
         return out
     by_next = {r['s'][2]: i for i, r in enumerate(flat_rows)}
-    flat_vals, cols = _full(flat)
+    flat_vals = _full(flat)
     epochs, feats_ok = [], True
     for k, e in enumerate(eps):
+        if not hasattr(e, 'columns') or any(col not in e.columns for col in sc) or 'is_burst' not in e.columns:
+            out['malformed'] = 'epoch %d is not a table with the sample columns of the flattened analysis and a label column' % k
+            out['epochs'] = []
+            return out
         rows = []
-        vals, cols_e = _full(e)
+        vals = _full(e)
         for i in range(len(e)):
             s = [int(e[col].iloc[i]) for col in sc]
             rid = by_next.get(s[2] + k * c['row_len'], 99999)
             rows.append({'s': s, 'lab': bool(e['is_burst'].iloc[i]), 'id': rid})
-            if rid != 99999 and (cols_e != cols or not all((a == b) or (math.isnan(a) and math.isnan(b)) for a, b in zip(vals[i], flat_vals[rid]))):
+            if rid != 99999 and not _same_vals(vals[i], flat_vals[rid]):
                 feats_ok = False
         epochs.append(rows)
     out['epochs'] = epochs
     out['features_unchanged'] = feats_ok
     return out
+
+
+def _shape(c):
+    if c.get('shape'):
+        return c['shape']
+    return 'list' if c.get('list') else 'dict'
+
+
+def _same_vals(a, b):
+    """same feature columns (by name, any order) with the same values"""
+    if set(a) != set(b):
+        return False
+    return all((a[k] == b[k]) or (math.isnan(a[k]) and math.isnan(b[k])) for k in a)
 
 
 def _spec_epochs(rows, sig_len, L):
@@ -217,6 +317,8 @@ def oracle(c, o):
         return None
     if 'err' in o:
         return 'raised %s (%s)' % (o['err'], o.get('msg'))
+    if 'malformed' in o:
+        return o['malformed']
     if c['kind'] == 'synthetic':
         rows = [{'s': r, 'lab': l} for r, l in zip(c['rows'], c['labels'])]
         want = _spec_epochs(rows, c['sig_len'], c['L'])
@@ -225,7 +327,7 @@ def oracle(c, o):
     else:
         rows = o['flat']
         want = _spec_epochs(rows, c['n_rows'] * c['row_len'], c['row_len'])
-        if c['list']:
+        if c.get('list'):
             for k, ep in enumerate(want):
                 lab = _relabel(c, o, k, ep, rows)
                 for r, l in zip(ep, lab):
@@ -252,6 +354,24 @@ def nontrivial(c, o):
 
 def kind_of(c, o):
     k = c['kind']
+    if k == 'synthetic':
+        if c.get('index') is not None:
+            k += '/row_labels'
+    else:
+        first = c.get('first') or {}
+        flags = []
+        if c.get('shape') in ('dict', 'list') and 'center_extrema' not in first:
+            flags.append('default_centre')
+        if 'find_extrema_kwargs' in first:
+            flags.append('fek')
+        if any('return_samples' in d for d in ([first] + list(c.get('list') or []))):
+            flags.append('rs_entry')
+        if c['n_rows'] == 1:
+            flags.append('1row')
+        if flags:
+            k += '+' + '+'.join(flags)
+    if 'skip' in o:
+        return k + '/skipped'
     if 'epochs' in o and any(len(e) == 0 for e in o['epochs']):
         k += '/empty_epoch'
     return k + ('/err' if 'err' in o else '')
@@ -270,7 +390,7 @@ def _out(epochs):
 
 
 def coq_case(c, o):
-    if 'skip' in o:
+    if 'skip' in o or 'malformed' in o:
         return None
     if c['kind'] == 'synthetic':
         if 'err' in o:
@@ -278,7 +398,7 @@ def coq_case(c, o):
         rows = coqio.lst([_row_in(r, lab=l, rid=i) for i, (r, l) in enumerate(zip(c['rows'], c['labels']))]) if c['rows'] else 'nil'
         return '(%s, %d%%Z, %d%%Z)' % (rows, c['sig_len'], c['L']), _out(o['epochs'])
     rows = coqio.lst([_row_in(r['s'], r['f4'], r['bf'], r['lab'], i) for i, r in enumerate(o['flat'])]) if o['flat'] else 'nil'
-    if c['list']:
+    if c.get('list'):
         items = []
         for opts in c['list']:
             thr = opts.get('threshold_kwargs', {})
